@@ -55,7 +55,7 @@ struct Params {
 // ---------------------------------------------------------------- statistics: what actually fired
 struct Stats {
 	uint64_t steps=0, switches=0, clock_jumps=0;
-	uint64_t short_reads=0, short_writes=0, eagain_r=0, eagain_w=0, eintr=0, spurious=0, resets=0, epipe=0, partitions=0, partition_refused=0, getpeername_enotconn=0, urandom_open_failed=0, accept_emfile=0;
+	uint64_t short_reads=0, short_writes=0, eagain_r=0, eagain_w=0, eintr=0, spurious=0, resets=0, epipe=0, partitions=0, partition_refused=0, getpeername_enotconn=0, urandom_open_failed=0, accept_emfile=0, file_write_failed=0;
 	uint64_t file_short=0, file_eintr=0, cv_spurious=0, stdio_ops=0, stdio_fail=0;
 	uint64_t threads_created=0, mutex_contended=0, rw_contended=0, cv_waits=0;
 	uint64_t accepts=0, connects=0, bytes_rx=0, bytes_tx=0;
@@ -186,6 +186,8 @@ std::map<std::string,uint64_t> &probes();
 
 // entropy: bytes served for /dev/urandom reads come from this stream
 Rng &entropy_rng();
+void arm_file_write_fault(int skip,int err);   // simulated file system: after `skip` more write() calls the disk is full (err ENOSPC: possibly one last partial write) or broken (EIO); every later write fails until disarmed
+void disarm_file_write_fault();
 const std::vector<std::string> &entropy_by_open();   // per closed open() of the simulated /dev/urandom: the bytes it was served, in order (however the reads were cut): an identifier "drawn from the entropy source" equals one of them
 
 } // namespace simk
